@@ -233,8 +233,129 @@ def c02_family(tier):
     progs, refused = valid(progs)
     if tier == 'quick':
         want = ['chain', 'route', 'fanout', 'fanin', 'inin', 'wnew', 'tree', 'wave', 'nullfw', 'a2a', 'stride',
-                'route_cnt', 'fanin_cnt', 'inin_cnt', 'wave_cnt', 'su_tmtf_ttmo', 'su_btmo_tmtn', 'su_newf_ctlo', 'su_nullo_tmtn']
+                'route_cnt', 'inin_cnt', 'wave_cnt', 'su_tmtf_ttmo', 'su_btmo_tmtn', 'su_newf_ctlo']
         progs = [p for p in progs if p.name in want]
         missing = set(want) - set(p.name for p in progs)
         assert not missing, missing
     return progs, refused
+
+
+# ----------------------------------------------------------------------------- C16
+def c16_again_family(tier):
+    """Small programs (variants with <= 4 instances get every AGAIN script (0..3)^n)."""
+    dp = {p.name: p for p in dep_progs()}
+    progs = []
+    p = dp['chain']; p.variants = NV(1, 2, 3, 4); progs.append(p)
+    p = dp['fanout']; p.variants = NV(1, 2); progs.append(p)
+    p = dp['fanin']; p.variants = NV(1); progs.append(p)
+    p = dp['a2a']; p.variants = NV(1, 2); progs.append(p)
+    p = dp['wnew']; p.variants = NV(1, 2); progs.append(p)
+    progs.append(shape_prog(SHAPES[0], False, tag='ag', variants=NV(1, 2, 3, 4)))
+    progs.append(shape_prog(SHAPES[3], True, tag='ag', variants=NV(1)))
+    if tier != 'quick':
+        p = dp['route']; p.variants = NV(1); progs.append(p)
+        p = dp['nullfw']; p.variants = NV(1, 2); progs.append(p)
+        progs.append(startup_prog('tmt', 'first', 'ctl', 'odd', variants=NV(1)))
+        progs.append(startup_prog('btm', 'odd', 'none', 'odd', variants=NV(1, 2)))
+    return valid(progs)
+
+
+C16_SHAPES = ['lin', 'step2', 'tri', 'triE', 'nest3', 'derl', 'derp', 'lidx', 'mid', 'swap', 'inl', 'estep', 'tri2', 'neg']
+
+
+def c16_startup_family(tier):
+    """Execution spaces of 1..3 nested parameters whose instances are all start-up tasks, plus mixed
+    start-up / non-start-up classes (the start-up loop `continue`s over the latter). No negative steps."""
+    by = {s[0]: s for s in SHAPES}
+    names = ['lin', 'tri', 'nest3', 'lidx', 'derp', 'swap', 'triE'] if tier == 'quick' else C16_SHAPES
+    big = NV(1, 2, 3, 5) if tier == 'quick' else NV(1, 2, 3, 4, 5, 6)
+    progs = []
+    for n in names:
+        v = big
+        if n in ('nest3',):
+            v = NV(1, 2, 3) if tier == 'quick' else NV(1, 2, 3, 4)
+        progs.append(shape_prog(by[n], False, tag='cs', variants=v))
+    progs.append(startup_prog('tmt', 'odd', 'none', 'odd', variants=big))
+    progs.append(startup_prog('btm', 'odd', 'ttm', 'notlast', variants=big))
+    if tier != 'quick':
+        progs.append(startup_prog('bmt', 'first', 'ctl', 'odd', variants=big))
+        progs.append(startup_prog('ttm', 'notlast', 'tmt', 'odd', variants=big))
+        progs.append(shape_prog(by['tri'], True, tag='cs', variants=NV(1, 2, 3, 4)))
+    return valid(progs)
+
+
+# ----------------------------------------------------------------------------- C23
+# range forms for the parameter at depth d (q = name of the previous parameter, None at depth 0)
+def _forms(q):
+    f = ['0 .. N-1', '-2 .. N-3', '1 .. 2*N .. 2', '-N .. -1']
+    if q:
+        f += ['%s .. N-1' % q, '0 .. %s' % q, '-%s .. %s .. 2' % (q, q)]
+    return f
+
+
+def key_classes(maxdepth):
+    """Every parameter-space shape: depth 1..maxdepth, each parameter's range from _forms()."""
+    out = []
+    names = ['a', 'b', 'c', 'd']
+
+    def rec(d, locs):
+        if d > 0:
+            out.append((', '.join(names[:d]), list(locs)))
+        if d == maxdepth:
+            return
+        for f in _forms(names[d - 1] if d else None):
+            rec(d + 1, locs + ['%s = %s' % (names[d], f)])
+    rec(0, [])
+    return out
+
+
+KEY_EXTRA = [
+    ('d, a, c, b', ['a = -1 .. N-2', 'b = a .. N-1', 'c = 0 .. 1', 'd = -N .. 1-N']),      # parameter order differs from declaration order
+    ('a, s, b, t', ['a = 0 .. N-1', 's = a*a', 'b = 0 .. a', 't = a - b']),                # derived parameters between ranges
+    ('o, e',       ['o = [ i = 0 .. N-1 ] 2*i+1', 'e = [ i = 0 .. N-1 ] 2*i']),            # local indices
+    ('k, n',       ['k = 0 .. N-1', 'n = 2*k']),
+    ('k',          ['k = 0 .. N-1', 'n = k+1']),
+    ('s',          ['s = 0 .. N .. N+1']),
+    ('i, j, l',    ['i = 0 .. N-1', 'j = 0 .. 1', 'l = j .. i']),
+    ('k',          ['k = %{ return 0-N; %} .. %{ return N-1; %}']),
+    ('i, j',       ['i = 0 .. 2*N .. N', 'j = -i .. i .. 2']),
+    ('a, b, c, d', ['a = -1 .. 0', 'b = a .. 1', 'c = -N .. b', 'd = c .. c+1']),
+    ('p, k',       ['k = 0 .. N-1', 'p = 0 .. 1']),
+]
+
+
+def key_bundle(name, shapes, variants, succ=False):
+    cl = []
+    for i, (params, locs) in enumerate(shapes):
+        args = params
+        cl.append(Cls('S%d(%s)' % (i, params), locs, 'A(0)', [Flow('READ T', ['A(0)'], ['T Z%d(%s)' % (i, args)] if succ else [])]))
+        if succ:
+            cl.append(Cls('Z%d(%s)' % (i, params), locs, 'A(0)', [Flow('READ T', ['T S%d(%s)' % (i, args)])]))
+    return Prog(name, {'A': '1'}, ['N'], variants, cl, tags=['keys'])
+
+
+def c23_family(tier):
+    progs = []
+    v = NV(1, 2, 3)
+    pl_names = lambda s: [x.strip() for x in s[0].split(',')]
+    permuted = [s for s in KEY_EXTRA if [l.split('=')[0].strip() for l in s[1] if l.split('=')[0].strip() in pl_names(s)] != pl_names(s)]
+    derived = [s for s in KEY_EXTRA if s not in permuted and any(('..' not in l) and l.split('=')[0].strip() in pl_names(s) for l in s[1])]
+    lidx = [s for s in KEY_EXTRA if s not in permuted and s not in derived and any('[' in l for l in s[1])]
+    plain = [s for s in KEY_EXTRA if s not in permuted + derived + lidx]
+    progs.append(key_bundle('kx_plain', plain, v, succ=True))
+    progs.append(key_bundle('kx_permuted', permuted, v, succ=True))
+    progs.append(key_bundle('kx_lidx', lidx, v, succ=True))
+    # a derived parameter followed by another parameter does not compile with -M index-array: hash-only bundle
+    follow = [s for s in derived if s[0].startswith('a, s')]
+    p = key_bundle('kx_derived_ht', follow, v, succ=True); p.backends = ('ht',); progs.append(p)
+    progs.append(key_bundle('kx_derived', [s for s in derived if s not in follow], v, succ=True))
+    shapes = key_classes(2 if tier == 'quick' else 3)
+    per = 10
+    for i in range(0, len(shapes), per):
+        progs.append(key_bundle('kg%02d' % (i // per), shapes[i:i + per], NV(1, 2, 3) if tier == 'quick' else NV(1, 2, 3, 4)))
+    if tier != 'quick':
+        s4 = [s for s in key_classes(4) if len(s[1]) == 4]
+        s4 = s4[::7]          # every 7th of the 4-parameter shapes (fixed stride, not random)
+        for i in range(0, len(s4), per):
+            progs.append(key_bundle('kh%02d' % (i // per), s4[i:i + per], NV(1, 2)))
+    return valid(progs)
